@@ -4380,11 +4380,23 @@ EmitModSib_LabelRip_X86:
           }
 
           label = &_code->label_entry_of(base_label_id);
-          rel_offset -= (4 + imm_size);
 
-          if (label->is_bound_to(_section)) {
+          // The displacement is calculated in 64 bits as `[label + offset]` can end up out of the range of DISP32.
+          int64_t rel_offset64 = int64_t(rel_offset) - int64_t(4u + imm_size);
+          bool is_bound_to_current_section = label->is_bound_to(_section);
+
+          if (is_bound_to_current_section) {
+            rel_offset64 += int64_t(label->offset()) - int64_t(writer.offset_from(_buffer_data));
+          }
+
+          if (ASMJIT_UNLIKELY(!Support::is_int_n<32>(rel_offset64))) {
+            goto InvalidDisplacement;
+          }
+
+          rel_offset = int32_t(rel_offset64);
+
+          if (is_bound_to_current_section) {
             // Label bound to the current section.
-            rel_offset += int32_t(label->offset() - writer.offset_from(_buffer_data));
             writer.emit32u_le(uint32_t(rel_offset));
           }
           else {
